@@ -481,7 +481,12 @@ class Emitter:
                 return k(name)
             return k(ident(p))
         if t == 'cast':
-            return self.tr(e[1], k)                     # integer casts between modelled-as-N types (checked by caller cfg)
+            # integer casts between modelled-as-N types: widening casts are the identity; `as u8` truncates (cfg 'narrow_casts')
+            ty = e[2] if len(e) > 2 else None
+            tyname = ty if isinstance(ty, str) else (ty[1] if isinstance(ty, tuple) and len(ty) > 1 and isinstance(ty[1], str) else None)
+            if tyname in self.cfg.get('narrow_casts', {}):
+                return self.tr(e[1], lambda a: k("(%s mod %s)" % (a, self.cfg['narrow_casts'][tyname])))
+            return self.tr(e[1], k)
         if t == 'ref' or t == 'deref':
             return self.tr(e[1], k)
         if t == 'blockexpr':
